@@ -6,6 +6,7 @@ import (
 	"github.com/tsawler/tabula/zzharness/props/c03"
 	"github.com/tsawler/tabula/zzharness/props/c04"
 	"github.com/tsawler/tabula/zzharness/props/c10"
+	"github.com/tsawler/tabula/zzharness/props/c14"
 )
 
 func registerAll() {
@@ -14,4 +15,5 @@ func registerAll() {
 	register(c03.New())
 	register(c04.New())
 	register(c10.New())
+	register(c14.New())
 }
